@@ -11,6 +11,7 @@ from . import common, molprops
 
 SPEC = {
     "level": "exploration",
+    "level_text": "Exploration: post-condition on canonicalize_molecule checks colour purity and equitability directly, symmetry through bliss automorphism generators (cross-checked by brute force for n<=7), and label independence through tagged shadow relabellings. Workload includes inputs needing > n/2 and > 64 refinement rounds, found by search, so 'ran to the fixed point' is actually exercised.",
     "suite_under_monitor": True,
     "technique": "runtime contract (icontract ensure) on canonicalize_molecule: equitable/colour-pure/orbit-respecting/label-independent classes",
     "rule": ("cases: M1 exhaustive n<=4/5 x two 3-colour palettes (orbits also by enumeration), M2, M3 (known symmetric skeletons), M4, M7-small "
